@@ -1,6 +1,7 @@
 import ChythonModel.Py.Wire
 import ChythonModel.Model.Stereo
 import ChythonModel.Model.StereoParse
+import ChythonModel.Model.StereoFix
 /-!
 Line-protocol driver for C12. Every request is `<op> <int> …`; lists are length-prefixed; `-1` = `None`.
 
@@ -15,6 +16,7 @@ Line-protocol driver for C12. Every request is `<op> <int> …`; lists are lengt
   po strong tokens… / rct stereo_bonds counterpart            parser bookkeeping; direction marks → add_cis_trans_stereo calls
   aw / awh / ws                                               add_wedge (heavy / hydrogen target), __wedge_sign
   rdb endsDistinct shareRing <ringSizes>                      double bond reported as stereogenic (chiral_cis_trans)
+  fx  nA (n stereo tetra allene)^nA nB (n m order stereo tn tn' tm tm')^nB nT (k (kind a b s)^k j (kind a b)^j)^nT   fix_stereo
 Response: `ok <value>` or `err <PythonExceptionName>`; `bad` for a malformed request line.
 -/
 open ChythonModel.Py ChythonModel.Model.Stereo
@@ -108,8 +110,90 @@ def showOpt : Except PyErr (Option Bool) → String
   | .ok none => "ok none"
   | .error e => "err " ++ e.name
 
+/-! `fx`: fix_stereo with the oracle given as a table -/
+open ChythonModel.Model.StereoFix in
+def kindOf (i : Int) : Kind := if i == 0 then .tetra else if i == 1 then .allene else .cisTrans
+open ChythonModel.Model.StereoFix in
+def kindNo : Kind → Nat
+  | .tetra => 0 | .allene => 1 | .cisTrans => 2
+def optPair (a b : Int) : Option (Nat × Nat) := if a < 0 then none else some (a.toNat, b.toNat)
+
+open ChythonModel.Model.StereoFix in
+def parseFxAtoms : Nat → List Int → Option (List AtomIn × List Int)
+  | 0, rest => some ([], rest)
+  | k+1, n :: st :: t :: al :: rest => do
+    let (tl, rest') ← parseFxAtoms k rest
+    some (⟨n.toNat, tri st, t != 0, al != 0⟩ :: tl, rest')
+  | _, _ => none
+
+open ChythonModel.Model.StereoFix in
+def parseFxBonds : Nat → List Int → Option (List BondIn × List Int)
+  | 0, rest => some ([], rest)
+  | k+1, n :: m :: o :: st :: a :: b :: c :: d :: rest => do
+    let (tl, rest') ← parseFxBonds k rest
+    some (⟨n.toNat, m.toNat, o.toNat, tri st, optPair a b, optPair c d⟩ :: tl, rest')
+  | _, _ => none
+
+open ChythonModel.Model.StereoFix in
+def parseFxLabels : Nat → List Int → Option (List Label × List Int)
+  | 0, rest => some ([], rest)
+  | k+1, kd :: a :: b :: sg :: rest => do
+    let (tl, rest') ← parseFxLabels k rest
+    some ((⟨kindOf kd, a.toNat, b.toNat⟩, sg != 0) :: tl, rest')
+  | _, _ => none
+
+open ChythonModel.Model.StereoFix in
+def parseFxUnits : Nat → List Int → Option (List SUnit × List Int)
+  | 0, rest => some ([], rest)
+  | k+1, kd :: a :: b :: rest => do
+    let (tl, rest') ← parseFxUnits k rest
+    some (⟨kindOf kd, a.toNat, b.toNat⟩ :: tl, rest')
+  | _, _ => none
+
+open ChythonModel.Model.StereoFix in
+def parseFxTable : Nat → List Int → Option (List (List Label × List SUnit) × List Int)
+  | 0, rest => some ([], rest)
+  | k+1, nl :: rest => do
+    if nl < 0 then none
+    let (ls, r1) ← parseFxLabels nl.toNat rest
+    match r1 with
+    | nu :: r2 =>
+      if nu < 0 then none
+      let (us, r3) ← parseFxUnits nu.toNat r2
+      let (tl, r4) ← parseFxTable k r3
+      some ((ls, us) :: tl, r4)
+    | [] => none
+  | _, _ => none
+
+open ChythonModel.Model.StereoFix in
+def showFx (tab : List (List Label × List SUnit)) (o : Out) : String :=
+  if o.asked.any (fun q => (tab.lookup q).isNone) then "err oracle-missing"
+  else
+    let ls := " ".intercalate (o.labels.map fun (u, s) => s!"{kindNo u.kind}:{u.a}:{u.b}:{if s then 1 else 0}")
+    s!"ok {ls} | cache={if o.cache.isSome then 1 else 0} | rounds={o.asked.length}"
+
+def handleFx (xs : List Int) : Option String := do
+  match xs with
+  | na :: r =>
+    if na < 0 then none
+    let (atoms, r) ← parseFxAtoms na.toNat r
+    match r with
+    | nb :: r =>
+      if nb < 0 then none
+      let (bonds, r) ← parseFxBonds nb.toNat r
+      match r with
+      | nt :: r =>
+        if nt < 0 then none
+        let (tab, r) ← parseFxTable nt.toNat r
+        if r != [] then none
+        some (showFx tab (ChythonModel.Model.StereoFix.fixStereo (ChythonModel.Model.StereoFix.tableOracle tab) atoms bonds))
+      | [] => none
+    | [] => none
+  | [] => none
+
 def handleInts (op : String) (xs : List Int) : Option String :=
   match op with
+  | "fx" => handleFx xs
   | "tt" => do
     let (order, r) ← takeList xs
     let (env, r) ← takeList r
